@@ -277,11 +277,12 @@ type sess struct {
 	orders   *state.TypedCollection[Order]
 	resets   int
 	snaps    []bool
+	onErrs   int
 }
 
 func newSess(strict bool) *sess {
 	s := &sess{}
-	opts := []state.MaterializerOption{state.WithOnReset(func() { s.resets++ }), state.WithOnSnapshot(func(b bool) { s.snaps = append(s.snaps, b) })}
+	opts := []state.MaterializerOption{state.WithOnReset(func() { s.resets++ }), state.WithOnSnapshot(func(b bool) { s.snaps = append(s.snaps, b) }), state.WithOnError(func(error) { s.onErrs++ })}
 	if strict {
 		opts = append(opts, state.WithStrictSchema())
 	}
@@ -406,6 +407,42 @@ func TestC18(t *testing.T) {
 		}
 		if d := one.diff(full, true); d != "" {
 			viol("one-session-fold", d)
+		}
+		nBad := 0
+		for _, sp := range specs {
+			if sp.Kind == "bad-value" {
+				nBad++
+			}
+		}
+		if one.onErrs != nBad {
+			viol("onerror-callback", fmt.Sprintf("the OnError callback ran %d times for %d change messages that could not be applied to their registered collection", one.onErrs, nBad))
+		}
+		// the same messages applied directly (ApplyChangeMessage / ApplyControlMessage): same state, no offset
+		direct := newSess(strict)
+		for i, e := range evs {
+			var probe struct {
+				Headers struct {
+					Control string `json:"control"`
+				} `json:"headers"`
+			}
+			json.Unmarshal(e.Data, &probe)
+			if probe.Headers.Control != "" {
+				var cm state.ControlMessage
+				json.Unmarshal(e.Data, &cm)
+				direct.mat.ApplyControlMessage(&cm)
+				continue
+			}
+			var ch state.ChangeMessage
+			json.Unmarshal(e.Data, &ch)
+			if err := direct.mat.ApplyChangeMessage(&ch); (err == nil) != applicable[i] {
+				viol("direct-apply-result", fmt.Sprintf("ApplyChangeMessage of message %d returned %v, want success=%v", i, err, applicable[i]))
+				break
+			}
+		}
+		fullNoOffset := *full
+		fullNoOffset.last = ""
+		if d := direct.diff(&fullNoOffset, true); d != "" {
+			viol("direct-apply-fold", d)
 		}
 		// Materializer.Replay over the bus (only when every event applies: Replay stops at an error)
 		if allOK {
